@@ -167,7 +167,7 @@ impl Property for C12 {
     ]
   }
   fn plan(tier: Tier) -> Plan {
-    Plan { workers: 16, cases_per_worker: tier.pick(150, 3000) }
+    Plan { workers: 16, cases_per_worker: tier.pick(150, 30000) }
   }
   fn shrink_iters() -> u32 {
     600
